@@ -2,7 +2,7 @@
 
 TIMEOUTS = [None, 2, 0.2, 0.05, 0.005]
 
-BENIGN_RAISES = ["ValueError", "KeyError", "LvError", "SystemExit", "KeyboardInterrupt", "RuntimeError"]
+BENIGN_RAISES = ["ValueError", "KeyError", "LvError", "SystemExit", "KeyboardInterrupt", "RuntimeError", "LvFalsy"]
 
 
 def t_ok(rng):
@@ -214,6 +214,10 @@ def g_crash(rng):
             ops.append({"op": "submit", "ex": "e", "task": t_raise(rng)})
         else:
             ops.append({"op": "sleep", "d": rng.choice([0.001, 0.02, 0.1])})
+    churn = kw["max_workers"] >= 2 and rng.random() < 0.3
+    if churn:
+        # a surviving worker whose process tree keeps changing (short-lived children) while the pool breaks
+        ops.insert(rng.randint(1, 3), {"op": "submit", "ex": "e", "task": {"k": "spawn_loop", "d": 2.5}})
     inline = rng.random()
     if inline < 0.35:
         # the death comes from a task / chaos kill instead of (or in addition to) the injector
@@ -236,7 +240,7 @@ def g_crash(rng):
         {"op": "shutdown", "ex": "e", "wait": True},
     ]
     prog = {"threads": _number([ops]), "end": "return"}
-    return prog, {"gen": "g_crash", "kind": kind, "kw": kw, "inline_death": inline < 0.35, "second_wave": second_wave}
+    return prog, {"gen": "g_crash", "kind": kind, "kw": kw, "inline_death": inline < 0.35, "second_wave": second_wave, "churn": churn, "sigchld_ignore": rng.random() < 0.15}
 
 
 def g_route(rng):
@@ -258,7 +262,13 @@ def g_route(rng):
                 base = rng.randint(0, 10**6)
                 iters = [[base + 1000 * j + x for x in range(rng.choice([0, 1, 2, 5, 9, 17]))] for j in range(n_it)]
                 L = min(len(x) for x in iters) if iters else 0
-                ops.append({"op": "map", "ex": "e", "iters": iters, "chunksize": rng.choice([1, 2, 3, 7, max(1, L), L + 5])})
+                mop = {"op": "map", "ex": "e", "iters": iters, "chunksize": rng.choice([1, 2, 3, 7, max(1, L), L + 5])}
+                v = rng.random()
+                if v < 0.2 and iters and len(iters[0]) >= 2:
+                    mop["shared_iter"] = rng.choice([2, 3])  # one iterator passed several times
+                elif v < 0.35 and iters and len(iters[0]) >= 5:
+                    mop["stop_mod"] = rng.choice([3, 4, 7])  # the mapped function raises StopIteration for some arguments
+                ops.append(mop)
             elif r < 0.92:
                 ops.append({"op": "sleep", "d": rng.choice([0.001, 0.03, 0.08])})
             elif kind == "reusable" and ti == 0:
@@ -599,6 +609,27 @@ def g_factory(rng):
     return {"threads": [ops], "end": "return"}, {"gen": "g_factory", "threads": 1}
 
 
+def g_factory_break_race(rng):
+    """C09: a caller that has just seen a future fail with the pool's error asks the factory at once, while the
+    manager thread is still busy failing the other futures (a slow done-callback keeps it there)."""
+    mw = rng.randint(1, 3)
+    kw = {"max_workers": mw, "timeout": 10}
+    t0 = [{"op": "get_reusable", "ex": "e", "kw": kw}]
+    n = rng.randint(3, 6)
+    for i in range(n):
+        op = {"op": "submit", "ex": "e", "task": {"k": "sleep", "d": 0.3}, "id": "t0.s%d" % i}
+        if i == 0:
+            op["slow_cb"] = 0.6  # failed last (pending items are failed in LIFO order) or first: either way it holds the manager
+        if i == 1:
+            op["slow_cb"] = 0.6
+        t0.append(op)
+    t0 += [{"op": "barrier", "name": "go"}, {"op": "submit", "ex": "e", "task": t_die(rng), "id": "t0.die"}, {"op": "wait", "futs": "all"}]
+    watch = "t0.s%d" % (n - 1)
+    t1 = [{"op": "barrier", "name": "go"}, {"op": "result", "fut": watch}, {"op": "get_reusable", "ex": "e1", "prev_ex": "e", "kw": kw, "after_failure_of": watch},
+          {"op": "submit", "ex": "e1", "task": t_ok(rng)}, {"op": "wait", "futs": "all"}]
+    return {"threads": [t0, t1], "barriers": {"go": 2}, "end": "return"}, {"gen": "g_factory_break_race", "threads": 2, "kw": kw}
+
+
 def g_factory_mt(rng):
     """C09 multi-thread: racing callers varying only max_workers."""
     nt = rng.randint(2, 6)
@@ -887,6 +918,18 @@ def g_sem(rng):
     live = []
     n = 0
     ctx = rng.choice(["loky", "loky", "loky_init_main"])
+    extra_threads = []
+    if rng.random() < 0.3:
+        # several threads use the tracker for the first time at the same instant
+        nth = rng.randint(2, 4)
+        ops.append({"op": "barrier", "name": "first"})
+        for j in range(1, nth):
+            extra_threads.append([{"op": "barrier", "name": "first"}, {"op": "mk", "obj": "c%d" % j, "type": rng.choice(["Lock", "Semaphore", "Event"]), "ctx": ctx, "n": 1}])
+            live.append("c%d" % j)
+        ops.append({"op": "mk", "obj": "c0", "type": "Semaphore", "ctx": ctx, "n": 1})
+        live.append("c0")
+        ops.append({"op": "sleep", "d": 0.3})
+        ops.append({"op": "shmlist"})
     for step in range(rng.randint(2, 9)):
         r = rng.random()
         if r < 0.45 or not live:
@@ -934,8 +977,10 @@ def g_sem(rng):
             ops.append({"op": "shmlist", "expect_empty": True})
         released_all = True
     end = {"return": "return", "return_live": "return", "crash_worker": "return", "raise": "raise", "sys_exit": "sys_exit", "os_exit": "os_exit", "killself": "killself"}[ending]
-    prog = {"threads": [ops], "end": end}
-    meta = {"gen": "g_sem", "ctx": ctx, "ending": ending, "use_exec": use_exec, "released_all": released_all, "crash": crash or any(o.get("how") == "crash" for o in ops)}
+    prog = {"threads": [ops] + extra_threads, "end": end}
+    if extra_threads:
+        prog["barriers"] = {"first": 1 + len(extra_threads)}
+    meta = {"gen": "g_sem", "ctx": ctx, "ending": ending, "concurrent_first_use": bool(extra_threads), "use_exec": use_exec, "released_all": released_all, "crash": crash or any(o.get("how") == "crash" for o in ops)}
     return prog, meta
 
 
